@@ -26,6 +26,7 @@ for c in "$@"; do
 done
 git -C /repo checkout -- .
 git -C /repo status --short | head -3
+git -C /verif checkout -- evidence/ 2>/dev/null
 mkdir -p /verif/seeded/$id
 cp /tmp/seed-$id.diff /verif/seeded/$id/patch.diff
 cp $wt/$demo /verif/seeded/$id/
